@@ -2,3 +2,4 @@
 //   static std::string cmd_xyz(const std::vector<std::string>& a)      (a[0] is the command word)
 // and registers them with:   static RegisterCmd reg_xyz("XYZ", cmd_xyz);
 // Helpers available from harness.cpp: hex(valtype), unhex(str, valtype&), split(str, ch), join_items, in_child(lambda), fnv1a.
+#include "cmd_spend.inc"
